@@ -26,7 +26,11 @@ func init() {
 		if err := runExtSel(e); err != nil {
 			return err
 		}
-		return runExtList(e)
+		if err := runExtList(e); err != nil {
+			return err
+		}
+		e.rep.Rule += "; function attachment: methods with 1-6 `map [SRC] FIELD | FUNC` / `default FUNC` / ignore lines in random order (several functions, the same identifiers in a second package, a later map line without function for the same field, siblings): function of every field and the constructor after comments.ParseDocs + config.Parse vs Gv.Settings.parseMethodLines"
+		return runFuncAttach(e)
 	}
 }
 
